@@ -56,10 +56,21 @@ def one_case(rng, res, family):
             ch.layout_keys[a_.keyid] = a_.pub; ch.layout_keys[b_.keyid] = b_.pub
             links = [scen.link_spec(a_, rng.choice(["metablock", "dsse"]), st_["name"], st_["materials"], st_["products"], tamper="illformed_signed"),
                      scen.link_spec(b_, rng.choice(["metablock", "dsse"]), st_["name"], st_["materials"], st_["products"])]
+            damaged = rng.random() < 0.5
+            if damaged:
+                # ... or the link is fine and the KEY the layout lists for that functionary is unusable (a PEM block with a
+                # piece missing, a hex string of odd length): its signature cannot be checked, the link does not count -
+                # in either format - and the other functionary's link decides
+                import copy as _copy
+                links[0] = scen.link_spec(a_, links[0]["fmt"], st_["name"], st_["materials"], st_["products"])
+                bad = _copy.deepcopy(a_.pub)
+                pv = bad["keyval"]["public"]
+                bad["keyval"]["public"] = (pv[:70] + pv[82:]) if "BEGIN" in pv else pv[:-1]
+                ch.layout_keys[a_.keyid] = bad
             rng.shuffle(links)
             st_["links"] = links
             st_["pubkeys"] = [l_["k"].keyid for l_ in links] if rng.random() < 0.5 else st_["pubkeys"]
-            desc = {"step": st_["name"], "illformed_link_of": a_.kind, "proper_link_of": b_.kind}
+            desc = {"step": st_["name"], ("unusable_key_of" if damaged else "illformed_link_of"): a_.kind, "proper_link_of": b_.kind}
         elif family == "c02":
             ch, desc = c02.gen_case(rng, root, False)
         elif family == "c05":
@@ -334,7 +345,7 @@ def shard(seed, idx, n, tier):
     rng = core.rng_for(seed, "c14", idx)
     for j in range(n):
         one_case(rng, res, FAMILIES[(idx + j) % len(FAMILIES)])
-    if idx % 4 == 0:
+    if idx % 2 == 0:
         one_case(rng, res, "illformed")
     alias_dump_case(rng, res)
     for _ in range(max(1, n // 4)):
